@@ -137,7 +137,10 @@ class World:
         self.ncall += 1
         net.call = self.ncall
         self.checked = []
-        held = pool.get()
+        try:
+            held = pool.get()
+        except RuntimeError:
+            return  # no free slot (only after a transition that was already reported): nothing to overlap
         try:
             held.get("a")
             self.obj.get("b")
